@@ -504,10 +504,14 @@ def clip(
     if np.__version__ < "2.1.0" and a_min is None and a_max is None:  # pragma: no cover
         raise ValueError("`a_min` and `a_max` cannot both be set to `None`")
 
-    if a_min is not None:
+    if a_min is not None and a_max is not None:
+        # only the final step writes into `out`, so that a failure
+        # of either step leaves `out` untouched
+        a = maximum(a_min, a, constant=constant)
+        a = minimum(a_max, a, out=out, constant=constant)
+    elif a_min is not None:
         a = maximum(a_min, a, out=out, constant=constant)
-
-    if a_max is not None:
+    elif a_max is not None:
         a = minimum(a_max, a, out=out, constant=constant)
     return mg.astensor(a)
 
